@@ -8,6 +8,14 @@ W1_COMPONENTS = {
 }
 
 PROPS = {
+    "C07": {
+        "level": "exploration",
+        "quick_runs": 5000, "quick_budget_s": 60,
+        "thorough_budget_s": 600,
+        "rule": "C07 scenario: 1-6 callers x 1-3 exchanges on one of 6 transports under dial error/hang, k-th write/read error, short/garbage frames, peer close with queries in flight, silence (incl. an entirely mute server with unbounded contexts), context cancel/deadline and transport Close at PRNG-chosen instants.",
+        "components": W1_COMPONENTS,
+        "cfg_dist_keys": ["kind", "mute", "callers"],
+    },
     "C01": {
         "level": "exploration",
         "quick_runs": 6000, "quick_budget_s": 45,
